@@ -107,4 +107,16 @@ def removeExact (cwd : String) (sels : List String) (inv post : Inv) (failed : B
     !failed && decide (post = inv.filter (fun s => !(sels.any fun sel => denotes cwd inv sel = [ident cwd s])))
   else failed && decide (post = inv)
 
+/-- `selectRecords` against the statement: it succeeds iff every selector denotes exactly one repository, and then
+    returns exactly the denoted repositories, each with exactly its shards -/
+def checkSelect (cwd : String) (sels : List String) (inv : Inv) (impl : Option (List Record)) : Bool :=
+  let unique := sels.all (fun sel => (denotes cwd inv sel).length = 1)
+  match impl with
+  | none => !unique
+  | some recs =>
+    unique &&
+    sameSet (recs.map fun r => (r.name, r.source)) (sels.flatMap (denotes cwd inv)) &&
+    nodupB (recs.map fun r => (r.name, r.source)) &&
+    recs.all fun r => sameSet r.shards ((inv.filter fun s => ident cwd s = (r.name, r.source)).map (·.path))
+
 end ZoektModel.C34
